@@ -23,8 +23,11 @@ META = {
                   "level) and checks its invariants; each chosen configuration is applied to programs whose behaviour TLC derived from "
                   "AldorSem.tla, so every setting is compared with the language definition (which implies equality with all-off and "
                   "pairwise). The -WD+optf pass trace is matched against Opt.tla's Schedule to show which passes really ran (drift-only).",
-    "level_note": "Trusted: AldorSem.tla, renderer, gcc, shipped libraries. The corpus part (pinned programs through the Obs monitor) is not "
-                  "built yet; the random-subset part uses two toggles after a level (Opt2.cfg) in the thorough tier.",
+    "level_note": "Trusted: AldorSem.tla, renderer, gcc, shipped libraries. The deterministic part of the pinned corpus goes through the Obs "
+                  "monitor (TraceObs.tla), grouped by route (interpreter levels against interpreter -Q0; in the thorough tier also the "
+                  "executable's levels against the executable at -Q0); corpus programs whose behaviour the language does not define are "
+                  "excluded with their reasons (lib/corpus.py). The random-subset part uses two toggles after a level (Opt2.cfg) in the "
+                  "thorough tier. Sub-families make exceptions, stores, calls and partially redundant expressions frequent.",
 }
 
 
